@@ -93,6 +93,9 @@ static std::vector<Shape> shapes() {
     v.push_back({"bson", "doc-array", [](int d) { return bson_nest(d, 1); }});
     v.push_back({"bson", "array-deepest", [](int d) { return bson_nest(d, 2); }});
     v.push_back({"bson", "arrays", [](int d) { return bson_nest(d, 3); }});
+    // a typed array (and a multi-dimensional array) is an array too: d-1 plain arrays around it make d levels
+    v.push_back({"cbor", "typed-array-innermost", [](int d) { Bytes b; rep(b, {0x81}, d - 1); put(b, {0xd8, 0x40, 0x41, 0x07}); return b; }});
+    v.push_back({"cbor", "typed-array-f64-in-map", [](int d) { Bytes b; rep(b, {0xa1, 0x61, 0x61}, d - 1); put(b, {0xd8, 0x56, 0x48, 0, 0, 0, 0, 0, 0, 0, 0}); return b; }});
     // arrays and maps alternating; phase p: the level i (0 = outermost) is an array when (i + p) is even.  Over d = L-1, L, L+1
     // and both phases each container kind is met as the deepest one, at the limit and one beyond it
     for (int p = 0; p < 2; ++p) {
@@ -180,6 +183,43 @@ static void enc_case(const std::string& fmt, int kind, int L, int d) {
     else { if (r.ok) out().viol(sig, what + "wrote a value deeper than the limit"); else if (!r.depth_err) out().viol(sig, what + "failed with '" + r.err + "' instead of max_nesting_depth_exceeded"); }
     out().cls(std::string("enc:") + (r.ok ? "ok" : (r.depth_err ? "depth" : "other")));
     if ((g_eval % 97) == 1) out().sample(what + (r.ok ? "written" : "refused: " + r.err));
+}
+
+// ---- a reused cursor: after a parse that ended with containers open (truncated input, or input refused as too deep), reset(source)
+// must give the limit back in full
+template <class Cursor, class Options> static void reuse_case(const char* fmt, const Shape& sh, int L) {
+    Options o; o.max_nesting_depth(L);
+    auto drain = [](Cursor& c, std::error_code& ec) { int guard = 0; while (!ec && !c.done() && ++guard < 1000000) c.next(ec); };
+    for (int bad = 0; bad < 2; ++bad) {
+        ++g_eval;
+        Bytes first = sh.build(bad ? L + 1 : L); if (!bad) first.resize(first.size() / 2 > 0 ? first.size() / 2 : 1);
+        Bytes good = sh.build(L), deep = sh.build(L + 1);
+        std::string sig = std::string("REU|") + fmt + "|" + sh.name + "|" + std::to_string(L) + "|" + std::to_string(bad);
+        std::string what = std::string(fmt) + " cursor reused after " + (bad ? "an input refused as too deep" : "a truncated input") + ", shape " + sh.name + ", max_nesting_depth=" + std::to_string(L) + " :: ";
+        try {
+            std::error_code ec; Cursor c(first, o, ec); drain(c, ec);
+            for (int round = 0; round < 3; ++round) {
+                std::error_code e1; c.reset(good, e1); drain(c, e1);
+                if (e1) { out().viol(sig, what + "input nested exactly to the limit is rejected after reset (round " + std::to_string(round) + "): " + e1.message()); return; }
+                std::error_code e2; c.reset(deep, e2); drain(c, e2);
+                if (!e2) { out().viol(sig, what + "input deeper than the limit is accepted after reset"); return; }
+                std::error_code e3; c.reset(first, e3); drain(c, e3);
+            }
+            ++g_nontrivial;
+        } catch (const std::exception& e) { out().viol(sig, what + "threw " + e.what()); }
+        out().cls("reuse:ok");
+    }
+}
+static void run_reuse(int slice, int nslices) {
+    long long idx = 0;
+    for (auto& sh : shapes()) for (int L : {1, 2, 3, 10, 64}) {
+        if (sh.fmt == "json" || sh.fmt == "toon") continue;
+        if ((int)(idx++ % nslices) != slice) continue;
+        if (sh.fmt == "cbor") reuse_case<jsoncons::cbor::cbor_bytes_cursor, jsoncons::cbor::cbor_options>("cbor", sh, L);
+        else if (sh.fmt == "msgpack") reuse_case<jsoncons::msgpack::msgpack_bytes_cursor, jsoncons::msgpack::msgpack_options>("msgpack", sh, L);
+        else if (sh.fmt == "ubjson") reuse_case<jsoncons::ubjson::ubjson_bytes_cursor, jsoncons::ubjson::ubjson_options>("ubjson", sh, L);
+        else if (sh.fmt == "bson") reuse_case<jsoncons::bson::bson_bytes_cursor, jsoncons::bson::bson_options>("bson", sh, L);
+    }
 }
 
 static std::vector<int> limits(bool thorough) {
@@ -309,6 +349,9 @@ static std::vector<Claim> claims() {
     v.push_back({"cbor", "typed-array-u8", cb(2, {0xd8, 0x40}), 64}); v.push_back({"cbor", "typed-array-f64", cb(2, {0xd8, 0x56}), 64}); v.push_back({"cbor", "bignum", cb(2, {0xc2}), 64});
     v.push_back({"cbor", "array32", [](uint64_t n) { Bytes b = {0x9a}; be(b, n, 4); return b; }, 32});
     v.push_back({"cbor", "multi-dim", [](uint64_t n) { Bytes b = {0xd8, 0x28, 0x82, 0x82, 0x1b}; be(b, n, 8); b.push_back(0x1b); be(b, n, 8); b.push_back(0x80); return b; }, 64});
+    v.push_back({"cbor", "multi-dim-rank", [](uint64_t n) { Bytes b = {0xd8, 0x28, 0x82, 0x9b}; be(b, n, 8); return b; }, 64});
+    v.push_back({"cbor", "multi-dim-rank-colmajor", [](uint64_t n) { Bytes b = {0xd9, 0x04, 0x10, 0x82, 0x9b}; be(b, n, 8); return b; }, 64});
+    v.push_back({"cbor", "multi-dim-rank-then-dims", [](uint64_t n) { Bytes b = {0xd8, 0x28, 0x82, 0x9b}; be(b, n, 8); put(b, {0x02, 0x03}); return b; }, 64});
     v.push_back({"cbor", "array-in-array", [](uint64_t n) { Bytes b = {0x82, 0x01, 0x9b}; be(b, n, 8); return b; }, 64});
     // the same heads in every position a string or container can stand in
     v.push_back({"cbor", "text32", [](uint64_t n) { Bytes b = {0x7a}; be(b, n, 4); return b; }, 32}); v.push_back({"cbor", "bytes32", [](uint64_t n) { Bytes b = {0x5a}; be(b, n, 4); return b; }, 32}); v.push_back({"cbor", "map32", [](uint64_t n) { Bytes b = {0xba}; be(b, n, 4); return b; }, 32});
@@ -408,6 +451,7 @@ int main(int argc, char** argv) {
         if (p[0] == "DEP" && p[1] == "dec" && p.size() >= 7) { for (auto& s : shapes()) if (s.fmt == p[2] && s.name == p[3]) depth_case(s, atoi(p[4].c_str()), atoi(p[5].c_str()), atoi(p[6].c_str())); }
         else if (p[0] == "DEP" && p[1] == "enc" && p.size() >= 6) enc_case(p[2], atoi(p[3].c_str()), atoi(p[4].c_str()), atoi(p[5].c_str()));
         else if (p[0] == "ITM") run_items(0);
+        else if (p[0] == "REU") run_reuse(0, 1);
         else if (p[0] == "STK") run_stack(0, 1);
         else if (p[0] == "MEM" && p.size() >= 6) { for (auto& c : claims()) if (c.fmt == p[1] && c.name == p[2]) mem_case(c, strtoull(p[3].c_str(), nullptr, 16), atoi(p[4].c_str()), atoi(p[5].c_str())); }
         out().flush(); return 0;
@@ -415,6 +459,7 @@ int main(int argc, char** argv) {
     std::string mode = a.a.empty() ? "" : a.a[0];
     bool thorough = a.get("tier", "quick") == "thorough";
     if (mode == "depth") run_depth(thorough, a.slice, a.nslices);
+    else if (mode == "reuse") run_reuse(a.slice, a.nslices);
     else if (mode == "items") run_items(a.slice);
     else if (mode == "stack") run_stack(a.slice, a.nslices);
     else if (mode == "mem") run_mem(thorough, a.slice, a.nslices);
